@@ -57,6 +57,9 @@ func (c *RawBtcConfig) Validate() error {
 	if c.BlockInterval < 1 {
 		return fmt.Errorf("blockInterval has to be >=1")
 	}
+	if err := chain.ValidateSeconds("blockRetryInterval", c.BlockRetryInterval); err != nil {
+		return err
+	}
 
 	if c.Username == "" {
 		return fmt.Errorf("required field chain.Username empty for chain %v", *c.Id)
